@@ -10,6 +10,7 @@ import NomtModel.Driver.SeglogMode
 import NomtModel.Driver.TriePosMode
 import NomtModel.Driver.ShardsMode
 import NomtModel.Driver.DeltaMode
+import NomtModel.Driver.OvfMode
 /-!
 `nomt_model`: the executable Lean model behind a line protocol.
 First argument selects the sub-protocol; stdin → stdout, one output line per input line.
@@ -39,4 +40,5 @@ def main (args : List String) : IO UInt32 := do
   | ["triepos"] => loop stdin stdout trieposStep none; return 0
   | ["shards"] => loop stdin stdout shardsStep {}; return 0
   | ["delta"] => loop stdin stdout deltaStep {}; return 0
+  | ["overflow"] => loop stdin stdout OvfD.ovfStep {}; return 0
   | _ => IO.eprintln "usage: nomt_model <core|...>"; return 2
